@@ -127,6 +127,10 @@ def m_part(run, scr, nat):
     except mir.Unsupported as e:
         run.inconclusive.append("encoder (dynamic_time_units): %s" % e)
         dyn_items = None
+    try:
+        tags_part(run, ms, nat)
+    except mir.Unsupported as e:
+        run.inconclusive.append("encoder (value_as_tags): %s" % e)
     run.assumptions += [
         "strings are abstracted to 1..4 whitespace-separated words, each `<digits/dots><rest>`; what the code can observe of a word "
         "(number part parses or not and its value in [0,1e12], the rest as an SMT string, emptiness of either part) is symbolic",
@@ -316,6 +320,164 @@ def dynamic_units_part(run, ms, nat):
     return items
 
 
+def tags_part(run, ms, nat):
+    """value_as_tags on an abstract comma string / sequence of k entries: the result is the entries (trimmed, for the string form)
+    that are non-empty and not seen before, in order"""
+    dump, decls = ms.dump, ms.decls
+    f = dump.find(r"^value_as_tags$")
+    run.functions.append("metadata::value_as_tags (MIR; strings as identities)")
+    batches = []
+    for form, k in (("string", 3), ("sequence", 3)) if run.tier == "quick" else (("string", 3), ("sequence", 3), ("string", 4), ("sequence", 4)):
+        sem = smt.RealSem(prefix="tg%s%d" % (form[0], k))
+        mods = dict(models.STD_MODELS)
+        mods.update(models.MORE_MODELS)
+        mods.update(models.VEC_MODELS)
+        mods.update(models.RESULT_MODELS)
+        it = mir.Interp(dump, decls, sem, models=mods)
+        it.lenient = True
+        it.abstract_fns = [r"Option::<&serde_yaml::Value>::map::<MetaType", r"^MetadataError::"]      # error payloads, built eagerly
+        # an entry as the dedup loop sees it: identity `id` (0 = the empty string)
+        ids = [sem.sym_int("%s_id%d" % (sem.prefix, j), "isize", 0, 9) for j in range(k)]
+        pieces = [Opaque("piece %d" % j) for j in range(k)]
+        entries = {}      # token the loop sees -> index
+
+        def entry_of(tok):
+            for t, j in entries.items():
+                if t is tok:
+                    return j
+            return None
+        val = Opaque("the yaml value")
+        seq_items = [Opaque("yaml item %d" % j) for j in range(k)]
+        seq_tok = [Opaque("text of yaml item %d" % j) for j in range(k)]
+        store = {}
+
+        def m_trim(it_, a, c_):
+            j = [i for i, p_ in enumerate(pieces) if p_ is a[0]]
+            if not j:
+                raise mir.Unsupported("trim of %r" % (a[0],))
+            t = store.setdefault(("trim", j[0]), Opaque("trimmed piece %d" % j[0]))
+            store[id(t)] = (t, j[0])
+            return t
+
+        def idx_of(tok):
+            tok = tok if isinstance(tok, Opaque) else it.deref(tok, it.cur_env)
+            k_ = store.get(id(tok))
+            return k_[1] if k_ else None
+
+        def m_is_empty(it_, a, c_):
+            j = idx_of(a[0])
+            if j is None:
+                raise mir.Unsupported("is_empty of %r" % (a[0],))
+            return SV("bool", "(= %s 0)" % ids[j])
+
+        def m_contains(it_, a, c_):
+            v = a[0] if isinstance(a[0], VecVal) else it_.deref(a[0], it_.cur_env)
+            j = idx_of(a[1])
+            js = [idx_of(x) for x in v.items]
+            if j is None or None in js:
+                raise mir.Unsupported("contains on unknown tokens")
+            return SV("bool", "(or false %s)" % " ".join("(= %s %s)" % (ids[i], ids[j]) for i in js))
+
+        def m_as_str_like(it_, a, c_):
+            j = [i for i, p_ in enumerate(seq_items) if p_ is a[0]]
+            if not j:
+                raise mir.Unsupported("as_str_like of %r" % (a[0],))
+            store[id(seq_tok[j[0]])] = (seq_tok[j[0]], j[0])
+            return models.mk_option(it_, SV("isize", "1"), seq_tok[j[0]])
+
+        def m_collect_option(it_, a, c_):
+            out = []
+            for pc_, acc in models._apply_chain(it_, a[0]):
+                vals = []
+                for r in acc:
+                    if not (isinstance(r, Enum) and r.discr.expr == "1"):
+                        raise mir.Unsupported("collect::<Option<Vec>> over a possibly-None item")
+                    vals.append(r.variants["Some"].fields["0"])
+                out.append((pc_, it_._mk_enum("Option", "Some", [VecVal(vals)]), "return", None))
+            return out
+        mine = {
+            r"^serde_yaml::Value::as_str$": lambda it_, a, c_: it_._mk_enum("Option", "Some", [Opaque("the comma string")]) if form == "string" else it_._mk_enum("Option", "None", []),
+            r"^serde_yaml::Value::as_sequence$": lambda it_, a, c_: it_._mk_enum("Option", "Some", [VecVal(seq_items)]),
+            r"^core::str::<impl str>::split::<char>$": lambda it_, a, c_: models.IterVal(list(pieces)),
+            r"^<std::str::Split<'_, char> as Iterator>::map::<": models.m_iter_map,
+            r"^<std::slice::Iter<'_, serde_yaml::Value> as Iterator>::map::<": models.m_iter_map,
+            r"^<std::iter::Map<std::str::Split<'_, char>, .*> as Iterator>::collect::<Vec<": models.m_iter_collect,
+            r"^<std::iter::Map<std::slice::Iter<'_, serde_yaml::Value>, .*> as Iterator>::collect::<std::option::Option<Vec<": m_collect_option,
+            r"^core::str::<impl str>::trim$": m_trim,
+            r"^<&str as Into<Cow<'_, str>>>::into$": models.m_identity,
+            r"^<Cow<'_, str> as Deref>::deref$": models.m_identity,
+            r"^core::str::<impl str>::is_empty$": m_is_empty,
+            r"^core::slice::<impl \[Cow<'_, str>\]>::contains$": m_contains,
+            r"as_str_like$": m_as_str_like,
+            r"^Vec::<Cow<'_, str>>::with_capacity$": lambda it_, a, c_: VecVal([]),
+            r"^<Vec<Cow<'_, str>> as IntoIterator>::into_iter$": models.m_vec_into_iter_owned,
+            r"^<std::vec::IntoIter<Cow<'_, str>> as Iterator>::next$": models.m_iter_next,
+        }
+        mine.update({k_: v_ for k_, v_ in it.models.items() if k_ not in mine})      # the specific models take precedence
+        it.models = mine
+        outs = it.run(f, [val])
+        items = []
+        n_ok = 0
+        for o in outs:
+            p = ">".join(o.trace[-2:])
+            pcs = mcheck.pc_assert(o.pc)
+            if o.kind == "panic":
+                items.append(("value_as_tags (%s of %d) never panics: %s" % (form, k, str(o.msg)[:40]), pcs, "unsat"))
+                continue
+            if o.kind != "return" or "Ok" not in o.value.variants:
+                items.append(("value_as_tags (%s of %d) path[%s]: a string / a sequence of strings is never refused" % (form, k, p), pcs, "unsat"))
+                continue
+            n_ok += 1
+            res = o.value.variants["Ok"].fields["0"]
+            got = [idx_of(x) for x in res.items] if isinstance(res, VecVal) else None
+            if got is None or None in got or got != sorted(got) or len(set(got)) != len(got):
+                items.append(("value_as_tags (%s of %d) path[%s]: the result lists entries of the input, in order" % (form, k, p), pcs, "unsat"))
+                continue
+            conds = []
+            for j in range(k):
+                keep = "(and (not (= %s 0)) %s)" % (ids[j], " ".join("(not (= %s %s))" % (ids[i], ids[j]) for i in range(j)) or "true")
+                conds.append("(= %s %s)" % (keep, "true" if j in got else "false"))
+            if form == "string":
+                conds.append("true" if all(store.get(("trim", j)) is res.items[n] for n, j in enumerate(got)) else "false")
+            items.append(("value_as_tags (%s of %d) path[%s]: the tags are exactly the %sentries that are non-empty and did not occur before, in order" % (
+                form, k, p, "trimmed " if form == "string" else ""), pcs + ["(not (and %s))" % " ".join(conds)], "unsat"))
+        if n_ok == 0:
+            run.inconclusive.append("value_as_tags (%s of %d): no successful path" % (form, k))
+        batches.append((sem, items, "%s%d" % (form[0], k)))
+
+    def on_sat(name):
+        def cb(model, ob, item):
+            bad = tags_vectors(run, nat)
+            if bad:
+                run.violation("kernel=metadata::value_as_tags", bad, dict(engine="mir-smt", replay="tags"))
+                ob["status"] = "violated"
+            else:
+                run.inconclusive.append("C13 %s: candidate does not reproduce through the public accessor" % name[:80])
+        return cb
+    for sem, items, tg in batches:
+        b = mcheck.Batch(ms, "c13-tags-%s" % tg, list(sem.decls), timeout_s=60)
+        for name, asserts, expect in items:
+            b.add(name, asserts, expect, (), on_sat(name))
+        b.run()
+
+
+TAGS_EXPECT = [
+    ("string", " a, b ,a,, c ,b", ["a", "b", "c"]),
+    ("string", "one", ["one"]),
+    ("string", " , ,", []),
+    ("sequence", ["x", "y", "x", "", "z"], ["x", "y", "z"]),
+]
+
+
+def tags_vectors(run, nat):
+    for form, src, want in TAGS_EXPECT:
+        r = nat.call("tags", json.dumps(src))
+        run.traces_validated += 1
+        if not isinstance(r, dict) or "error" in r or r.get("panic") or r.get("tags") != want:
+            return "tags of %r read as %r, documented: %r" % (src, r.get("tags") if isinstance(r, dict) else r, want)
+    return None
+
+
 RENAMED_EXPECT = [
     # (converter variant, string, documented minutes)
     ("metre", "2 km", None), ("metre", "1 km 500 m", None), ("metre", "2 hr", None), ("metre", "90", 90),
@@ -411,7 +573,8 @@ def check(run):
         "Kani 0.68 / CBMC 6.11 model of rustc MIR (debug profile, overflow checks on), unwinding assertions on",
     ]
     run.not_covered += [
-        "tags, author/source name-URL split (String/Cow/Vec building: not affordable, see DESIGN 5/C13)",
+        "author/source name-URL split (str::split_once / strip_suffix / chars on symbolic text: not affordable, see DESIGN 5/C13); "
+        "tags: the split at commas and the trimming themselves are abstract (the loop over the entries is decided)",
         "dynamic units: Converter::find_unit / Converter::convert are abstract in the encoding (their own behaviour is C09 / C16 territory); "
         "the link to real converters is the renamed-units validation vectors only",
         "the parse-time warning <-> accessor link (needs the analysis pass)",
@@ -432,6 +595,9 @@ def check(run):
                 run.violation("validation-vector time %s" % s_.strip().replace(" ", "_"),
                               "as_minutes(%r) = %r but the documented reading gives %r" % (s_, r, reference_minutes(s_.strip())),
                               dict(engine="validation-vector", replay="time", string=s_.strip()))
+        bad = tags_vectors(run, nat)
+        if bad and not run.violations:
+            run.violation("validation-vector tags", bad, dict(engine="validation-vector", replay="tags"))
         bad, key = renamed_vectors(run, nat)
         if bad and not run.violations:
             run.violation("validation-vector time_renamed", bad, dict(engine="validation-vector", replay="time_renamed", variant=key[0], string=key[1], profile=key[2]))
@@ -451,6 +617,15 @@ def replay(run, path):
         want = reference_minutes(obj["string"])
         print("replay: as_minutes(%r) = %r, documented %r" % (obj["string"], r, want))
         if r.get("panic") or r.get("minutes") != want:
+            print("VIOLATION property=C13 replay=%s" % path)
+            return 1
+        return 0
+    if obj.get("replay") == "tags":
+        nat = native.Native(scr)
+        nat.build()
+        bad = tags_vectors(run, nat)
+        print("replay: %s" % (bad or "all tag readings as documented"))
+        if bad:
             print("VIOLATION property=C13 replay=%s" % path)
             return 1
         return 0
